@@ -505,6 +505,7 @@ type Contract struct {
 	Unroll     int
 	ResultName string
 	Implements string
+	Cuts       []string // source-text anchors: paths reaching such a line are not verified (listed)
 }
 
 type Lemma struct {
@@ -522,7 +523,15 @@ type Abstract struct {
 	Ret    string
 }
 
+type Uninterp struct {
+	Name   string
+	Params []Binder
+	Ret    string
+}
+
 type SpecDB struct {
+	Uninterps map[string]*Uninterp
+	Axioms    []*Lemma
 	Abstracts map[string]*Abstract
 	Contracts map[string]*Contract
 	Order     []string
@@ -540,7 +549,7 @@ var clauseKeywords = map[string]bool{"func": true, "iface": true, "extern": true
 	"lemma": true, "requires": true, "ensures": true, "raises": true, "noraise": true, "noreturn": true,
 	"modifies": true, "loop": true, "assert": true, "mode": true, "inline": true, "pure": true,
 	"outside-subset": true, "assume": true, "may-panic": true, "nosafe": true, "end": true, "bounded": true,
-	"abstract": true, "implements": true}
+	"abstract": true, "implements": true, "cut": true, "uninterp": true, "axiom": true}
 
 func splitTags(s string) []string {
 	s = strings.Trim(s, "[] ")
@@ -549,7 +558,7 @@ func splitTags(s string) []string {
 }
 
 func loadSpecFiles(repo string) (*SpecDB, error) {
-	db := &SpecDB{Contracts: map[string]*Contract{}, Defines: map[string]*Define{}, Invs: map[string]*Define{}, Abstracts: map[string]*Abstract{}}
+	db := &SpecDB{Contracts: map[string]*Contract{}, Defines: map[string]*Define{}, Invs: map[string]*Define{}, Abstracts: map[string]*Abstract{}, Uninterps: map[string]*Uninterp{}}
 	files := []string{"contracts_verif.go", "pm/contracts_verif.go", "parse/contracts_verif.go"}
 	more, _ := filepath.Glob(filepath.Join(repo, "contracts_verif_*.go"))
 	for _, m := range more {
@@ -607,7 +616,7 @@ func (db *SpecDB) parseFile(fname, prefix, data string) {
 			continue
 		}
 		first := body
-		if j := strings.IndexAny(body, " \t["); j >= 0 {
+		if j := strings.IndexAny(body, " \t[@"); j >= 0 {
 			first = body[:j]
 		}
 		if clauseKeywords[first] {
@@ -630,6 +639,11 @@ func (db *SpecDB) parseFile(fname, prefix, data string) {
 		if j := strings.IndexAny(body, " \t"); j >= 0 {
 			kw = body[:j]
 			rest = strings.TrimSpace(body[j:])
+		}
+		if strings.HasPrefix(body, "cut@") {
+			kw = "cut"
+		} else if strings.HasPrefix(body, "assert@") {
+			kw = "assert"
 		}
 		var ctags []string
 		if m := tagsRe.FindStringSubmatch(body); m != nil {
@@ -673,6 +687,34 @@ func (db *SpecDB) parseFile(fname, prefix, data string) {
 			db.Order = append(db.Order, key)
 		case "end":
 			cur = nil
+		case "uninterp":
+			// uninterp name(p T, q U) R
+			lp := strings.Index(rest, "(")
+			rp := strings.LastIndex(rest, ")")
+			if lp < 0 || rp < lp {
+				errf("bad uninterp declaration %q", rest)
+				continue
+			}
+			u := &Uninterp{Name: strings.TrimSpace(rest[:lp]), Ret: strings.TrimSpace(rest[rp+1:])}
+			if ps := strings.TrimSpace(rest[lp+1 : rp]); ps != "" {
+				for _, p := range strings.Split(ps, ",") {
+					f := strings.Fields(p)
+					if len(f) != 2 {
+						errf("bad uninterp parameter %q", p)
+						continue
+					}
+					u.Params = append(u.Params, Binder{f[0], f[1]})
+				}
+			}
+			db.Uninterps[u.Name] = u
+		case "axiom":
+			c := strings.Index(rest, ":")
+			if c < 0 {
+				errf("axiom needs ':'")
+				continue
+			}
+			db.Axioms = append(db.Axioms, &Lemma{Name: strings.TrimSpace(rest[:c]), E: pe(rest[c+1:]), Line: loc})
+			db.Assumes = append(db.Assumes, fmt.Sprintf("axiom %s (assumed, about an uninterpreted spec function): %s", strings.TrimSpace(rest[:c]), strings.TrimSpace(rest[c+1:])))
 		case "abstract":
 			// abstract callFrameStack.$sp(self) int   |  abstract callFrameStack.$frame(self, i int) *callFrame
 			lp := strings.Index(rest, "(")
@@ -775,6 +817,16 @@ func (db *SpecDB) parseFile(fname, prefix, data string) {
 				cur.Raises = &Clause{Kind: "raises", E: pe(strings.TrimSpace(rest[4:])), Tags: ctags, Line: loc}
 			case "implements":
 				cur.Implements = "iface " + prefix + rest
+			case "cut":
+				// cut@"source text"  reason
+				r := body[strings.Index(body, "@\"")+2:]
+				j := strings.Index(r, "\"")
+				if !strings.Contains(body, "@\"") || j < 0 {
+					errf("cut needs @\"anchor\"")
+					continue
+				}
+				cur.Cuts = append(cur.Cuts, r[:j])
+				db.Assumes = append(db.Assumes, fmt.Sprintf("%s: code from the line containing %q onwards is NOT verified (%s)", cur.Key, r[:j], strings.TrimSpace(r[j+1:])))
 			case "noraise":
 				cur.NoRaise = true
 			case "noreturn":
